@@ -22,22 +22,35 @@ Definition u_number : N -> bool := in_ranges unicode_number.
 Definition zero_cfg : cfg := map (fun fd => (fd_id fd, zero_of (fd_kind fd))) cfg_fields.
 Definition default_cfg : cfg := default_cfg_lit ++ zero_cfg ++ [(G_printVersion, VBool false)].
 
+(* the model over the generated tables, for any rune classes *)
+Section Generic.
+  Variables (isp isl isn : N -> bool).
+
+  Definition unmarshal_g : kind -> bytes -> pres value :=
+    unmarshal_value LogAlways LogError LogWarning LogInfo LogHealthCheck LogDebug.
+  Definition assign_g (fields : list fielddef) : list assignment -> list effect * option dstatus :=
+    assign_effects LogAlways LogError LogWarning LogInfo LogHealthCheck LogDebug fields.
+  Definition decode_g (fields : list fielddef) : bytes -> list effect * dstatus :=
+    decode_effects isp isl isn LogAlways LogError LogWarning LogInfo LogHealthCheck LogDebug fields.
+  Definition flag_effects_g : flagdef -> bytes -> list effect * option fstatus :=
+    flag_effects isp isl isn LogAlways LogError LogWarning LogInfo LogHealthCheck LogDebug cfg_fields.
+  Definition parse_flags_g : list flagdef -> list bytes -> list effect * fstatus :=
+    parse_flags isp isl isn LogAlways LogError LogWarning LogInfo LogHealthCheck LogDebug cfg_fields.
+  Definition daemon_parse_g (platform : bytes) (fs : bytes -> option bytes) :
+    list flagdef -> list bytes -> cfg -> cfg * pstatus :=
+    daemon_parse isp isl isn LogAlways LogError LogWarning LogInfo LogHealthCheck LogDebug cfg_fields
+      F_ConfigFile F_BindPort F_BindAddr platform fs.
+  Definition configure_g (platform : bytes) (fs : bytes -> option bytes) (args : list bytes) : outcome :=
+    configure isp isl isn LogAlways LogError LogWarning LogInfo LogHealthCheck LogDebug cfg_fields
+      F_ConfigFile F_BindPort F_BindAddr platform fs daemon_flags legacy_flags default_cfg args.
+End Generic.
+
+(* ... and over the Unicode classes: what the checks execute *)
 Definition lex_all_u : bytes -> list assignment * lend := lex_all u_space u_letter u_number.
-
-Definition decode_u (fields : list fielddef) : bytes -> list effect * dstatus :=
-  decode_effects u_space u_letter u_number LogAlways LogError LogWarning LogInfo LogHealthCheck LogDebug fields.
-
-Definition parse_flags_u : list flagdef -> list bytes -> list effect * fstatus :=
-  parse_flags u_space u_letter u_number LogAlways LogError LogWarning LogInfo LogHealthCheck LogDebug cfg_fields.
-
-Definition daemon_parse_u (platform : bytes) (fs : bytes -> option bytes) :
-  list flagdef -> list bytes -> cfg -> cfg * pstatus :=
-  daemon_parse u_space u_letter u_number LogAlways LogError LogWarning LogInfo LogHealthCheck LogDebug cfg_fields
-    F_ConfigFile F_BindPort F_BindAddr platform fs.
-
-Definition configure_u (platform : bytes) (fs : bytes -> option bytes) (args : list bytes) : outcome :=
-  configure u_space u_letter u_number LogAlways LogError LogWarning LogInfo LogHealthCheck LogDebug cfg_fields
-    F_ConfigFile F_BindPort F_BindAddr platform fs daemon_flags legacy_flags default_cfg args.
+Definition decode_u : list fielddef -> bytes -> list effect * dstatus := decode_g u_space u_letter u_number.
+Definition parse_flags_u : list flagdef -> list bytes -> list effect * fstatus := parse_flags_g u_space u_letter u_number.
+Definition daemon_parse_u := daemon_parse_g u_space u_letter u_number.
+Definition configure_u := configure_g u_space u_letter u_number.
 
 (* the Config a run ends with, field by field in declaration order, for comparison with the observed struct *)
 Definition project_cfg (c : cfg) : list value := map (fun fd => get (fd_id fd) c) cfg_fields ++ [get G_printVersion c].
